@@ -20,6 +20,45 @@ def conv_shape(case, out):
     return (f, cls, mag(a), mag(b))
 
 
+def kv_gen(tier, seed):
+    return [["gen", seed, 4000 if tier == "quick" else 150000]]
+
+
+def lenclass(h):
+    n = 0 if h in ("-", "_", "none") else len(h) // 2
+    return 0 if n == 0 else 1 if n == 1 else 2 if n < 64 else 3 if n < 65536 else 4
+
+
+def kv_shape(case, out):
+    api, host, call, key, value, cursor, resp = case.split(" ")
+    rk = ":".join(resp.split(":")[:2])
+    return (api, host, call, rk, out.split("result ")[-1].split(":")[0], lenclass(key), lenclass(value),
+            lenclass(resp.split(":")[-1]))
+
+
+def kv_nontrivial(case, out):
+    # non-trivial: the response is of the matching kind or an error (the property constrains the result)
+    call, resp = case.split(" ")[2], case.split(" ")[6]
+    return resp.startswith("err") or resp.split(":")[1] == call
+
+
+def hex_shrinks(case):
+    toks = case.split(" ")
+    out = []
+    for i, t in enumerate(toks):
+        parts = t.split(":")
+        for j, q in enumerate(parts):
+            for sub_i, sub in enumerate(q.split(",")):
+                if len(sub) >= 2 and all(c in "0123456789abcdef" for c in sub) and len(sub) % 2 == 0:
+                    for repl in ("-", sub[: (len(sub) // 4) * 2] or "-", sub[2:] or "-"):
+                        if repl != sub:
+                            qq = q.split(",")
+                            qq[sub_i] = repl
+                            pp = parts[:j] + [",".join(qq)] + parts[j + 1:]
+                            out.append(" ".join(toks[:i] + [":".join(pp)] + toks[i + 1:]))
+    return out + int_shrinks(case)
+
+
 PROPS = {
     "C19": {
         "streams": [Stream("conv", "conv", "conv", conv_gen, nontrivial=conv_nontrivial,
@@ -48,9 +87,31 @@ PROPS = {
     },
 }
 
+PROPS["C17"] = {
+    "streams": [Stream("kv", "kv", "kv", kv_gen, nontrivial=kv_nontrivial, shape=kv_shape, shrink=hex_shrinks)],
+    "rule": "cases = (API ∈ {capability, command}) × (host ∈ {Core, bincode Bridge}) × (call ∈ get/set/delete/exists/list_keys) "
+            "× generated key (empty, 1 char, unicode, control characters, 300 and 70 000 characters), value (empty, 1 byte, binary, "
+            "4 KiB, 1 MiB), cursor (0, 1, 2^32±, 2^63-1, 2^64-2, 2^64-1 …) × response (matching kind 60 %, every error variant "
+            "20 %, other kind 20 %; none vs empty vs binary values; key lists of 0/1/2/5/40); the real app issues the call, the "
+            "harness prints the operation(s) in the effect(s) and the single event payload delivered after resolving; "
+            "non-trivial = response kind matches the call or is an error; distinct = distinct (api, host, call, response kind, "
+            "result class, length classes of key/value/response payload)",
+    "level_text": "Proof: C17_kv_sound (every observation of the model M.Kv — operations emitted and result delivered — is accepted "
+                  "by the documented-behaviour specification S.Kv.ok, for every call, argument and response), kv_emits_one, "
+                  "kv_args_exact, unwrap_exact, unwrap_mismatch_panics, value_option_bijection, none_ne_empty. The model is one "
+                  "function for both APIs and both hosts; that the real capability API, command API, Core and bincode Bridge all "
+                  "behave as that one function is what the correspondence check establishes on every run.",
+    "level_note": "Trusted: Lean kernel + 3 standard axioms; hand model M.Kv (pure pass-through; checked against the real code on 4k "
+                  "(quick) / 150k (thorough) generated calls through both APIs and across the bincode bridge); serde/bincode for "
+                  "the wire hop are exercised, not modelled, here (C10 models the codec). A response of a kind other than the "
+                  "call's makes the real task panic; the property does not constrain that case and the oracle accepts anything there.",
+    "assumptions": ["keys/prefixes/messages are valid UTF-8 (they are Rust Strings); the model treats them as opaque bytes"],
+}
+
 # properties not claimed yet, with the reason shown in MANIFEST.not_applicable
 NOT_YET = {}
 ENGINE_TEXT = {
+    "kv": "real crux_kv calls (capability + command API; Core and bincode Bridge hosts) vs M.Kv (Lean), oracle S.Kv",
     "conv": "differential driver for crux_time::protocol conversions (Rust) vs M.Conv (Lean), oracle S.Conv",
 }
 HOOK_COMMITS = []
